@@ -662,8 +662,31 @@ def zone_cases(ctx, zones, wlo, whi, pts, case, bad):
         jobs.append(((["t"], rows, P(['sec2localtime($t, 0, "%s")' % name, 'localtime2sec(sec2localtime($t, 0, "%s"), "%s")' % (name, name),
                                       'gmt2localtime(sec2gmt($t), "%s")' % name, 'localtime2gmt(sec2localtime($t, 0, "%s"), "%s")' % (name, name), "sec2gmt($t)",
                                       'strftime_local($t, "%%Y-%%m-%%d %%H:%%M:%%S", "%s")' % name,
-                                      'sec2localtime(localtime2sec(sec2localtime($t, 0, "%s"), "%s"), 0, "%s")' % (name, name, name)]),
-                      ["l", "back", "g2l", "l2g", "g", "sfl", "l2"]), {}))
+                                      'sec2localtime(localtime2sec(sec2localtime($t, 0, "%s"), "%s"), 0, "%s")' % (name, name, name),
+                                      # texts with a fraction just below the next second: the fraction is dropped, never rounded up
+                                      'gmt2localtime(nsec2gmt($t * 1000000000 + 999999999, 9), "%s")' % name,
+                                      'localtime2gmt(nsec2localtime($t * 1000000000 + 999999900, 9, "%s"), "%s")' % (name, name)]),
+                      ["l", "back", "g2l", "l2g", "g", "sfl", "l2", "g2lf", "l2gf"]), {}))
+    # the text-to-text conversions over the whole range of years 1..9999 (fixed d09b4afa6: they went through int64
+    # nanoseconds and wrapped around outside 1678..2262); fixed probes + random instants, every zone
+    wide = [-14831769600, 16725225600, -62135596800 + 400 * 86400, 253402300799 - 400 * 86400, -9223372037, 9223372037, -9223372036, 9223372036] + \
+           [ctx.rng.randint(-62135596800 + 400 * 86400, 253402300799 - 400 * 86400) for _ in range(8 if ctx.tier == "quick" else 200)]
+    wrows = [(str(t),) for t in wide]
+    wjobs = []
+    for z in zones:
+        name = z["name"]
+        wjobs.append(((["t"], wrows, P(['sec2localtime($t, 0, "%s")' % name, 'gmt2localtime(sec2gmt($t), "%s")' % name,
+                                        'localtime2gmt(sec2localtime($t, 0, "%s"), "%s")' % (name, name),
+                                        'sec2gmt(localtime2sec(sec2localtime($t, 0, "%s"), "%s"))' % (name, name), "sec2gmt($t)"]),
+                       ["l", "g2l", "l2g", "gl", "g"]), {}))
+    wres = par(ctx, wjobs)
+    for z, res in zip(zones, wres):
+        for (tstr,), o in zip(wrows, res):
+            ctx.count(("wide-range-text-conversion", z["name"], tstr))
+            if o["g2l"] != o["l"] or o["l2g"] != o["gl"] or ERR in (o["l"], o["g"]):
+                bad("gmt2localtime-localtime2gmt-wide-range", input={"t": int(tstr), "zone": z["name"], "gmt_text": o["g"]}, observed={"gmt2localtime": o["g2l"], "localtime2gmt": o["l2g"]},
+                    expected={"gmt2localtime = sec2localtime": o["l"], "localtime2gmt = sec2gmt(localtime2sec)": o["gl"]},
+                    how="mlr -n put 'end{print gmt2localtime(\"%s\", \"%s\")}'" % (o["g"], z["name"]))
     results = par(ctx, jobs)
     for zi, z in enumerate(zones):
         name = z["name"]
@@ -681,6 +704,9 @@ def zone_cases(ctx, zones, wlo, whi, pts, case, bad):
                 case(13, int(o["back"]), zi, o["l"], "", {"fn": "localtime2sec", "zone": name, "text": o["l"]})
             if o["g2l"] != o["l"] or o["sfl"] != o["l"]:
                 bad("gmt2localtime-vs-sec2localtime", input={"t": t, "zone": name}, observed=o)
+            if abs(t) < 9000000000 and (o["g2lf"] != o["l"] or o["l2gf"] != o["l2g"]):
+                bad("gmt2localtime-localtime2gmt-fraction-dropped", input={"t": t, "zone": name, "fraction": ".999999999 / .999999900"},
+                    observed={"gmt2localtime": o["g2lf"], "localtime2gmt": o["l2gf"]}, expected={"gmt2localtime": o["l"], "localtime2gmt": o["l2g"]})
             if tz is not None:
                 want = datetime.datetime.fromtimestamp(t, tz).strftime("%Y-%m-%d %H:%M:%S")
                 if want != o["l"]:
